@@ -596,6 +596,8 @@ func runC20(c *Ctx) {
 	c.Rule("C20.R2", "redactTLSConfig writes the placeholder constant over a non-empty PrivateKey", 2)
 	c.Rule("C20.R3", "redaction stores only into memory allocated by the redactor", 12)
 	c.Rule("C20.R4", "admin handlers reach the effective config only through the redacting accessors", 3)
+	c.Rule("C20.R5", "answering an admin dump request writes no files: the code that restores the directory-mode paths is not reachable from the admin handlers", 1)
+	defer c20DumpWritesNoFiles(c)
 	c.Assumptions = append(c.Assumptions, "typed positions only: secrets inside interface{} / json.RawMessage / map[string]interface{} values (opaque leaves, listed) are not analysed", "encoding/json marshals only what is reachable from the value it is given")
 	c.NotDecided = append(c.NotDecided, "keys pasted into free-form filter configuration (opaque leaves)", "that TLS keeps working at runtime (follows from R3 for the live model)")
 
@@ -702,6 +704,10 @@ func runC20(c *Ctx) {
 			}
 			if why, ok := clearedByConstruction(c, t, p); ok {
 				c.Pass("C20.R1", key, vv.pos, "not redacted but cleared by construction: "+why)
+				continue
+			}
+			if why, ok := derivedFromRedacted(c, a, vv.v); ok {
+				c.Pass("C20.R1", key, vv.pos, why)
 				continue
 			}
 			c.Fail("C20.R1", key, vv.pos, fmt.Sprintf("a TLS context at %s%s (type %s) reaches the admin dump without passing redactTLSConfig (producer: %s): its private key would be exposed", shortTypeName(t), p, t.String(), producer))
@@ -1393,4 +1399,139 @@ func skipWhenNonEmpty(bo *ssa.BinOp, taken bool) bool {
 	}
 	// redaction executes on `taken`; it is skipped on !taken
 	return nonEmptyOnTrue == !taken
+}
+
+
+// derivedFromRedacted: v is f(args...) where f only rearranges what it is given - neither f nor the package functions it
+// calls read a package-level variable whose type can hold a TLSConfig - and every argument whose type can hold a
+// TLSConfig is itself the result of a redactor that covers all TLS paths of that argument's type. Whatever TLS context is
+// in the result then comes out of an already redacted value.
+func derivedFromRedacted(c *Ctx, a *apCtx, v ssa.Value) (string, bool) {
+	call, ok := v.(*ssa.Call)
+	if !ok {
+		return "", false
+	}
+	f := call.Common().StaticCallee()
+	if f == nil || len(f.Blocks) == 0 {
+		return "", false
+	}
+	var closed func(g *ssa.Function, d int, seen map[*ssa.Function]bool) bool
+	closed = func(g *ssa.Function, d int, seen map[*ssa.Function]bool) bool {
+		if seen[g] {
+			return true
+		}
+		seen[g] = true
+		if d > 4 {
+			return false
+		}
+		ok := true
+		forEachInstr(g, true, func(_ *ssa.Function, in ssa.Instruction) {
+			if u, isU := in.(*ssa.UnOp); isU && u.Op == token.MUL {
+				if gl, isG := rootOf(u.X).(*ssa.Global); isG {
+					if len(tlsPaths(u.Type()).paths) > 0 || len(tlsPaths(gl.Type()).paths) > 0 {
+						ok = false
+					}
+				}
+			}
+			if ci, isC := in.(ssa.CallInstruction); isC {
+				if cal := ci.Common().StaticCallee(); cal != nil && cal.Pkg == g.Pkg && len(cal.Blocks) > 0 {
+					if !closed(cal, d+1, seen) {
+						ok = false
+					}
+				}
+			}
+		})
+		return ok
+	}
+	if !closed(f, 0, map[*ssa.Function]bool{}) {
+		return "", false
+	}
+	n := 0
+	for _, arg := range call.Common().Args {
+		at := arg.Type()
+		tw := tlsPaths(at)
+		if len(tw.paths) == 0 {
+			continue
+		}
+		n++
+		src, isCall := stripIface(arg).(*ssa.Call)
+		if !isCall || src.Common().StaticCallee() == nil {
+			return "", false
+		}
+		red := src.Common().StaticCallee()
+		ctx := &apCtx{c: c, fn: red, memo: map[ssa.Value]string{}, sums: a.sums, inpro: a.inpro}
+		cov := map[string]bool{}
+		for p := range ctx.summary(red).paths {
+			if p == "R" || strings.HasPrefix(p, "R.") || strings.HasPrefix(p, "R[") {
+				cov[p[1:]] = true
+			}
+		}
+		for _, p := range tw.paths {
+			if cov[p] {
+				continue
+			}
+			if _, okc := clearedByConstruction(c, at, p); okc {
+				continue
+			}
+			return "", false
+		}
+	}
+	if n == 0 {
+		return "", false
+	}
+	return "built by " + f.Name() + " only from arguments that are already fully redacted", true
+}
+
+// c20DumpWritesNoFiles (R5): answering an admin dump request has no persistent side effect.
+// In directory mode (clusters_configs / router_configs) the config types' own MarshalJSON writes one file per cluster /
+// virtual host into the configured directory. The effective model therefore keeps those paths aside and only the code
+// that assembles the *persisted* dump puts them back. If that code becomes reachable from an admin handler, marshalling
+// the redacted view for the HTTP response rewrites the persisted files - with the placeholder instead of the private
+// key: TLS keeps working until the restart loads "***REDACTED***". Clause (who-may-call): no function that stores a
+// non-empty value into ClusterManagerConfig.ClusterConfigPath or RouterConfiguration.RouterConfigPath is reachable
+// through static calls from the admin server's handlers.
+func c20DumpWritesNoFiles(c *Ctx) {
+	restorers := map[*ssa.Function]string{}
+	for _, fn := range c.PkgFuncs("pkg/configmanager") {
+		forEachInstr(fn, true, func(f *ssa.Function, in ssa.Instruction) {
+			st, ok := in.(*ssa.Store)
+			if !ok {
+				return
+			}
+			_, fld, _, okf := fieldAddrInfo(st.Addr)
+			if !okf || (fld != "ClusterConfigPath" && fld != "RouterConfigPath") {
+				return
+			}
+			if s, isK := constStringVal(st.Val); isK && s == "" {
+				return
+			}
+			top := f
+			for top.Parent() != nil {
+				top = top.Parent()
+			}
+			restorers[top] = fld
+		})
+	}
+	if len(restorers) == 0 {
+		c.Unresolved("C20.R5", "the function that restores clusters_configs / router_configs for the persisted dump")
+		return
+	}
+	var roots []*ssa.Function
+	for _, fn := range c.PkgFuncs("pkg/admin/server") {
+		roots = append(roots, fn)
+	}
+	if len(roots) == 0 {
+		c.Unresolved("C20.R5", "admin server handlers")
+		return
+	}
+	reach := staticReach(roots, "")
+	var names []string
+	for f := range restorers {
+		names = append(names, f.Name())
+	}
+	sort.Strings(names)
+	for f, fld := range restorers {
+		c.Check("C20.R5", funcKey(f)+":not-on-admin-path", f.Pos(), !reach[f], "restores "+fld+" for the persisted dump only; not reachable from the admin handlers", f.Name()+" puts "+fld+" back into the configuration and is reachable from an admin handler: marshalling the redacted view for the HTTP response then runs the directory-mode MarshalJSON, which rewrites the persisted cluster / router files with the placeholder in place of the private key - the restart file loses the real key")
+	}
+	c.Extra["path_restorers"] = strings.Join(names, ",")
 }
